@@ -1325,8 +1325,11 @@ def _squeeze_results(results: IntermediateDict, axis: T_Axes) -> IntermediateDic
     newresults["groups"] = np.squeeze(
         groups, axis=tuple(ax for ax in range(groups.ndim - 1) if groups.shape[ax] == 1)
     )
+    nax = len(axis)
     for v in results["intermediates"]:
-        squeeze_ax = tuple(ax for ax in sorted(axis)[:-1] if v.shape[ax] == 1)
+        # the reduced axes sit right before the trailing groups axis, whatever leads them:
+        # the counts have no new (vector quantile) dimensions, the values do
+        squeeze_ax = tuple(ax for ax in range(v.ndim - nax, v.ndim - 1) if v.shape[ax] == 1)
         newresults["intermediates"].append(np.squeeze(v, axis=squeeze_ax) if squeeze_ax else v)
     return newresults
 
